@@ -214,9 +214,152 @@ theorem built_append (oc : OCfg) (st : St) (hI : Inv oc.cfg st) (hN : latestN st
     · have : rowWidthOk m.fields.length rows = false := by cases hx : rowWidthOk m.fields.length rows <;> simp_all
       simp [this] at h
 
+/-- new fragments, then one commit: the shape of create / append / overwrite / detached append -/
+theorem nf_core {cfg : Cfg} {st : St} (hI : Inv cfg st) (fields : List Nat) (f fid : Nat) (rows : List Row)
+    (base v : Nat) (m' : Manifest) (extra : Nat) (ht : targetOk st.store v = true) (hb : base < 2 ^ 64)
+    (hrefs : ∀ p ∈ m'.frags.flatMap Frag.refs ++ m'.indices.flatMap Index.refs,
+      p ∈ (nfPuts fields f st.uid rows).map (·.1) ∨ ∃ mb, manifestAt st.store base = some mb ∧ p ∈ mb.refs) :
+    GuardsOk cfg st.uid
+      (((newFrags fields f st.uid fid rows).map (·.2) ++ commitTxn cfg base v
+          (st.uid + (newFrags fields f st.uid fid rows).length) (st.uid + (newFrags fields f st.uid fid rows).length + 1)
+          m').length + extra + 8) [] st.store
+      ((newFrags fields f st.uid fid rows).map (·.2) ++ commitTxn cfg base v
+          (st.uid + (newFrags fields f st.uid fid rows).length) (st.uid + (newFrags fields f st.uid fid rows).length + 1)
+          m') := by
+  rw [newFrags_calls]
+  have hlen := newFrags_length fields f st.uid fid rows
+  have hcl : (putCalls (nfPuts fields f st.uid rows)).length = (chunks f rows.length rows).length := by
+    simp [putCalls, nfPuts]
+  obtain ⟨h1, h2, h3⟩ := nfPuts_spec fields f st.uid rows st.uid
+    ((putCalls (nfPuts fields f st.uid rows) ++ commitTxn cfg base v
+      (st.uid + (newFrags fields f st.uid fid rows).length) (st.uid + (newFrags fields f st.uid fid rows).length + 1)
+      m').length + extra + 8) (Nat.le_refl _) (by simp only [List.length_append, hcl]; omega)
+  refine guardsOk_txn (J_of_inv hI _) (nfPuts fields f st.uid rows) _ _ _ _ _ h1 h2 ht hb ⟨?_, ?_⟩ (h3 _) hrefs
+  · omega
+  · simp only [List.length_append, hcl, hlen]; omega
+
+theorem built_overwrite (oc : OCfg) (st : St) (hI : Inv oc.cfg st) (hN : latestN st.store + 2 < 2 ^ 63) (f : Nat) (rows : List Row)
+    (plan : Plan) (h : build oc st (.overwrite f rows) = .ok plan) :
+    GuardsOk oc.cfg st.uid plan.ids [] st.store plan.calls := by
+  simp only [build, buildCalls] at h
+  cases hm : manifestAt st.store (latestN st.store) with
+  | none => simp [hm] at h
+  | some m =>
+    cases rows with
+    | nil =>
+      simp only [hm] at h
+      split at h
+      · cases h
+      · rename_i p hp
+        split at hp
+        · cases hp
+        · cases hp
+          cases h
+          refine nf_core hI _ f _ _ _ _ _ _ (targetOk_next _ (by omega)) (by omega) ?_
+          intro p hp
+          simp only [List.flatMap_nil, List.append_nil] at hp
+          exact Or.inl (newFrags_refs _ _ _ _ _ p hp)
+    | cons r t =>
+      simp only [hm] at h
+      split at h
+      · cases h
+      · rename_i p hp
+        split at hp
+        · cases hp
+        · cases hp
+          cases h
+          refine nf_core hI _ f _ _ _ _ _ _ (targetOk_next _ (by omega)) (by omega) ?_
+          intro p hp
+          simp only [List.flatMap_nil, List.append_nil] at hp
+          exact Or.inl (newFrags_refs _ _ _ _ _ p hp)
+
+theorem built_create (oc : OCfg) (st : St) (hI : Inv oc.cfg st) (hN : latestN st.store + 2 < 2 ^ 63) (f : Nat) (rows : List Row)
+    (plan : Plan) (h : build oc st (.create f rows) = .ok plan) :
+    GuardsOk oc.cfg st.uid plan.ids [] st.store plan.calls := by
+  simp only [build, buildCalls] at h
+  cases rows with
+  | nil =>
+    simp only [] at h
+    split at h
+    · cases h
+    · rename_i p hp
+      split at hp
+      · cases hp
+      · rename_i hn
+        split at hp
+        · cases hp
+        · cases hp
+          have hn0 : latestN st.store = 0 := by simpa using hn
+          have ht : targetOk st.store 1 = true := by
+            have := targetOk_next st.store (by omega); rw [hn0] at this; exact this
+          cases h
+          refine nf_core hI _ f _ _ 0 1 _ _ ht (by omega) ?_
+          intro p hp
+          simp only [List.flatMap_nil, List.append_nil] at hp
+          exact Or.inl (newFrags_refs _ _ _ _ _ p hp)
+  | cons r t =>
+    simp only [] at h
+    split at h
+    · cases h
+    · rename_i p hp
+      split at hp
+      · cases hp
+      · rename_i hn
+        split at hp
+        · cases hp
+        · cases hp
+          have hn0 : latestN st.store = 0 := by simpa using hn
+          have ht : targetOk st.store 1 = true := by
+            have := targetOk_next st.store (by omega); rw [hn0] at this; exact this
+          cases h
+          refine nf_core hI _ f _ _ 0 1 _ _ ht (by omega) ?_
+          intro p hp
+          simp only [List.flatMap_nil, List.append_nil] at hp
+          exact Or.inl (newFrags_refs _ _ _ _ _ p hp)
+
+theorem targetOk_detached (s : Store) (v : Nat) (h1 : 2 ^ 63 ≤ v) (h2 : v < 2 ^ 64) : targetOk s v = true := by
+  simp [targetOk, C33.Names.isDetached_true _ h1 h2, h2]
+
+theorem built_dappend (oc : OCfg) (st : St) (hI : Inv oc.cfg st) (hN : latestN st.store + 2 < 2 ^ 63) (hU : st.uid < 2 ^ 63)
+    (f : Nat) (rows : List Row) (plan : Plan) (h : build oc st (.dappend f rows) = .ok plan) :
+    GuardsOk oc.cfg st.uid plan.ids [] st.store plan.calls := by
+  simp only [build, buildCalls] at h
+  cases hm : manifestAt st.store (latestN st.store) with
+  | none => simp [hm] at h
+  | some m =>
+    simp only [hm] at h
+    split at h
+    · cases h
+    · rename_i p hp
+      split at hp
+      · cases hp
+      · split at hp
+        · cases hp
+          cases h
+          dsimp only
+          rw [newFrags_calls]
+          have hcl : (putCalls (nfPuts m.fields f st.uid rows)).length = (chunks f rows.length rows).length := by
+            simp [putCalls, nfPuts]
+          obtain ⟨h1, h2, _⟩ := nfPuts_spec m.fields f st.uid rows st.uid
+            ((putCalls (nfPuts m.fields f st.uid rows)).length + (m.frags.length + m.indices.length) + 8)
+            (Nat.le_refl _) (by rw [hcl]; omega)
+          exact (runOk_puts oc.cfg st.uid _ (nfPuts m.fields f st.uid rows) [] st.store h1 (fun _ _ hh => by cases hh) h2).1
+        · cases hp
+          cases h
+          refine nf_core hI _ f _ _ _ _ _ _ (targetOk_detached _ _ (by omega) (by omega)) (by omega) ?_
+          intro p hp
+          simp only [List.flatMap_append, List.mem_append] at hp
+          rcases hp with (hp | hp) | hp
+          · exact Or.inr ⟨m, hm, frags_refs m p hp⟩
+          · exact Or.inl (newFrags_refs _ _ _ _ _ p hp)
+          · exact Or.inr ⟨m, hm, idx_refs m p hp⟩
+
 /-- the operations for which `build_valid` is proved -/
 def Covered : Op → Bool
+  | .create .. => true
   | .append .. => true
+  | .overwrite .. => true
+  | .dappend .. => true
   | .index => true
   | .dropcol => true
   | .config _ => true
@@ -224,21 +367,22 @@ def Covered : Op → Bool
   | _ => false
 
 /-- **build_valid** (operations of `Covered`).  On every table state satisfying the invariant (every state reachable by
-    `runHist`, `inv_runHist`) with fewer than 2^63 - 2 versions, every call of the program `Ops.build` returns, executed in
-    order, passes its `guard`: new files get fresh names, the commit targets `latest + 1`, and the manifest names only
-    files of the version it was built from and files written earlier by the same program. -/
-theorem build_valid (oc : OCfg) (st : St) (hI : Inv oc.cfg st) (hN : latestN st.store + 2 < 2 ^ 63) (op : Op)
-    (hc : Covered op = true) (plan : Plan) (h : build oc st op = .ok plan) :
+    `runHist`, `inv_runHist`) with fewer than 2^63 - 2 versions and fewer than 2^63 identifiers handed out, every call of
+    the program `Ops.build` returns, executed in order, passes its `guard`: new files get fresh names, the commit targets
+    `latest + 1` (a detached commit: a number with the top bit), and the manifest names only files of the version it was
+    built from and files written earlier by the same program. -/
+theorem build_valid (oc : OCfg) (st : St) (hI : Inv oc.cfg st) (hN : latestN st.store + 2 < 2 ^ 63) (hU : st.uid < 2 ^ 63)
+    (op : Op) (hc : Covered op = true) (plan : Plan) (h : build oc st op = .ok plan) :
     GuardsOk oc.cfg st.uid plan.ids [] st.store plan.calls := by
   cases op with
+  | create f rows => exact built_create oc st hI hN f rows plan h
   | append f rows => exact built_append oc st hI hN f rows plan h
+  | overwrite f rows => exact built_overwrite oc st hI hN f rows plan h
+  | dappend f rows => exact built_dappend oc st hI hN hU f rows plan h
   | index => exact built_index oc st hI hN plan h
   | dropcol => exact built_dropcol oc st hI hN plan h
   | config c => exact built_config oc st hI hN c plan h
   | restore v => exact built_restore oc st hI hN v plan h
-  | create _ _ => cases hc
-  | overwrite _ _ => cases hc
-  | dappend _ _ => cases hc
   | delete _ => cases hc
   | update _ _ => cases hc
   | upsert _ => cases hc
@@ -246,15 +390,15 @@ theorem build_valid (oc : OCfg) (st : St) (hI : Inv oc.cfg st) (hN : latestN st.
   | addcol => cases hc
 
 /-- a built program never takes the "precondition of the model violated" exit, whatever fault hits it -/
-theorem built_programs_never_invalid (oc : OCfg) (st : St) (hI : Inv oc.cfg st) (hN : latestN st.store + 2 < 2 ^ 63)
+theorem built_programs_never_invalid (oc : OCfg) (st : St) (hI : Inv oc.cfg st) (hN : latestN st.store + 2 < 2 ^ 63) (hU : st.uid < 2 ^ 63)
     (op : Op) (hc : Covered op = true) (plan : Plan) (h : build oc st op = .ok plan) (f : Option (Nat × Fault)) :
     (stepOp oc.cfg st ⟨plan.calls, plan.ids, f⟩).2 ≠ .invalid :=
-  guardsOk_never_invalid oc.cfg st.uid plan.ids plan.calls [] st.store f (build_valid oc st hI hN op hc plan h)
+  guardsOk_never_invalid oc.cfg st.uid plan.ids plan.calls [] st.store f (build_valid oc st hI hN hU op hc plan h)
 
 /-- atomicity, monotonicity and the invariant for a built program, without the `invalid` escape: under any fault the
     program ends as done / crashed / failed / conflict; what is visible afterwards is what an unfaulted prefix ending at
     one of its commit calls leaves; no version disappears or changes; the versions stay 1..N (`Inv`, hence `dense`). -/
-theorem built_op_atomic (oc : OCfg) (st : St) (hI : Inv oc.cfg st) (hN : latestN st.store + 2 < 2 ^ 63)
+theorem built_op_atomic (oc : OCfg) (st : St) (hI : Inv oc.cfg st) (hN : latestN st.store + 2 < 2 ^ 63) (hU : st.uid < 2 ^ 63)
     (op : Op) (hc : Covered op = true) (plan : Plan) (h : build oc st op = .ok plan) (f : Option (Nat × Fault)) :
     (stepOp oc.cfg st ⟨plan.calls, plan.ids, f⟩).2 ≠ .invalid ∧
     Inv oc.cfg (stepOp oc.cfg st ⟨plan.calls, plan.ids, f⟩).1 ∧
@@ -264,7 +408,7 @@ theorem built_op_atomic (oc : OCfg) (st : St) (hI : Inv oc.cfg st) (hN : latestN
     (latestN st.store ≤ latestN (stepOp oc.cfg st ⟨plan.calls, plan.ids, f⟩).1.store ∧
       ∀ v, v ∈ versions st.store → v ∈ versions (stepOp oc.cfg st ⟨plan.calls, plan.ids, f⟩).1.store ∧
         (v < 2 ^ 64 → read (stepOp oc.cfg st ⟨plan.calls, plan.ids, f⟩).1.store v = read st.store v)) :=
-  ⟨built_programs_never_invalid oc st hI hN op hc plan h f, inv_stepOp oc.cfg st _ hI,
+  ⟨built_programs_never_invalid oc st hI hN hU op hc plan h f, inv_stepOp oc.cfg st _ hI,
    visible_prefix_op oc.cfg st hI ⟨plan.calls, plan.ids, f⟩, monotone oc.cfg st hI ⟨plan.calls, plan.ids, f⟩⟩
 
 end LanceModel.C01
